@@ -354,8 +354,10 @@ func guardTenure(e *env, sc scen, t *tap, spinner gsync.Locker, hold time.Durati
 		if msg, bad := leaseGaps(evs[start:], end); bad {
 			out = append(out, finding{sig: "lease/gap/" + label, what: fmt.Sprintf("%s L=%v: %s", sc.Kind, L, msg), timeBound: true, w: map[string]any{"scenario": sc, "tap": evs}})
 		}
-		if first := evs[start]; first.Exp < first.Ret+L*3/4 {
-			out = append(out, finding{sig: "lease/short-first-lease/" + label, what: fmt.Sprintf("%s L=%v: the record created at %v for a caller that had waited expires at %v: its first lease is shorter than 3/4 of the lease period", sc.Kind, L, first.Ret, first.Exp), w: map[string]any{"scenario": sc, "tap": evs}})
+		// measured from the moment the Create was ISSUED (the expiry is computed right before it; judging from its
+		// return would blame a call that was slow on a loaded machine)
+		if first := evs[start]; first.Exp < first.Call+L*3/4 {
+			out = append(out, finding{sig: "lease/short-first-lease/" + label, what: fmt.Sprintf("%s L=%v: the record whose Create was issued at %v for a caller that had waited expires at %v: its first lease is shorter than 3/4 of the lease period", sc.Kind, L, first.Call, first.Exp), w: map[string]any{"scenario": sc, "tap": evs}})
 		}
 	}
 	return out
